@@ -232,7 +232,9 @@ def run(ctx):
     sites = C10.check_macros(ctx, ("ByteSwapped", "BitsSwapped"), "C15.R3", "C15.R3", "C15.R3")
     if sites < 3:
         ctx.error("C15.R3: %d swap instantiation sites, floor 3" % sites)
-    ctx.floor("C15.R3", 12)
+    from . import C10_helpers
+    C10_helpers.run(ctx, "C15.R3")       # the swap helpers and their lookup tables have their reference forms (shared with C10.R5)
+    ctx.floor("C15.R3", 12 + 20)
 
     # ---- R4 tunnel / compressed: the C01.R4 instances
     from ..core import Ctx
